@@ -136,7 +136,8 @@ def eigen_sym33_non_unit(tensor):
     
     cos_thd3 = cos_of_acos_divided_by_3(arg)
 
-    two_cos_thd3 = 2.0*cos_thd3*np.sign(rr)
+    # sign(0) must not be 0: for a pure shear tensor (eigenvalues -a, 0, a) rr is exactly zero
+    two_cos_thd3 = 2.0*cos_thd3*np.where(rr < 0, -1.0, 1.0)
 
     eval2 = np.where(c2Negative, two_cos_thd3/sqrtThreeOverA, 1.0)
     
@@ -225,7 +226,7 @@ def eigen_sym33_non_unit(tensor):
     #
     b = 0.5*(rm2xx-rm2yy)
 
-    sqrtTerm = Math.safe_sqrt(b*b+rm2xy_rm2xy)*np.sign(b)
+    sqrtTerm = Math.safe_sqrt(b*b+rm2xy_rm2xy)*np.where(b < 0, -1.0, 1.0)
     #sqrtTerm = np.sqrt(b*b+rm2xy_rm2xy)*np.sign(b)
     
     eval0 = rm2yy + b - sqrtTerm
